@@ -9,7 +9,7 @@ that hold for every `tol` say so, statements that need exact comparisons are sta
 with a proved counterexample for `tol > 0`.  Vocabulary (`Sol`, `Canon`, `Feasible`, `ObjInv`,
 `basicSolution`): `Rooc/TabSem.lean`.
 -/
-import Rooc.Proofs.StartMain
+import Rooc.Proofs.Bland6
 import Mathlib.Algebra.Order.Field.Rat
 import Mathlib.Tactic.NormNum
 namespace Rooc.Props.C14
@@ -118,6 +118,64 @@ theorem into_tableau_canonical_partial {tol : K} (ht : 0 < tol) (sm : StdModel K
       ObjInv T sm.objective ∧ (∀ x, Sol T x ↔ Sol (Start.stdTab sm) x) ∧ ((∀ r ∈ sm.rows, 0 ≤ r.rhs) → Feasible T) :=
   Start.intoTableau_direct ht sm stallExtra phase1Limit hrows hobj hN hdir
 
+/-- **phase1_start_canonical.**  The artificial-variable tableau that `into_tableau_two_phase` hands to the
+solver is in canonical form, represents the phase-1 objective `Σ artificials`, extends the standard form by
+one artificial variable per row (`(x, z)` solves it iff `A x + z = b`), and is feasible when `b ≥ 0`.  Together
+with `steps_preserve` every tableau phase 1 visits has these properties. -/
+theorem phase1_start_canonical (sm : StdModel K) (hrows : ∀ r ∈ sm.rows, r.coeffs.length = sm.vars.length) :
+    Canon (phase1Tab sm) sm.rows.length (sm.vars.length + sm.rows.length) ∧
+    ObjInv (phase1Tab sm) (Phase1.phase1Cost sm.vars.length sm.rows.length) ∧
+    (∀ x z : List K, x.length = sm.vars.length → z.length = sm.rows.length →
+      (Sol (phase1Tab sm) (x ++ z) ↔
+        ∀ i, i < sm.rows.length → dot (row (sm.rows.map (·.coeffs)) i) x + nth z i = nth (sm.rows.map (·.rhs)) i)) ∧
+    ((∀ r ∈ sm.rows, 0 ≤ r.rhs) → Feasible (phase1Tab sm)) :=
+  Phase1.phase1_canonical sm hrows
+
+/-- **phase1_feasible_value_bound** (every `tol ≥ 0`).  If the standard form has a feasible point `x`, the value
+`v` at which phase 1 stops with success satisfies `−v ≤ tol·Σx`. -/
+theorem phase1_feasible_value_bound {tol : K} (htol : 0 ≤ tol) (sm : StdModel K)
+    (hrows : ∀ r ∈ sm.rows, r.coeffs.length = sm.vars.length) (stallExtra limit : Nat) (prefer : List Nat)
+    (hok : (solve tol stallExtra limit prefer (phase1Tab sm)).result = .ok ())
+    (x : List K) (hxl : x.length = sm.vars.length)
+    (hx : ∀ i, i < sm.rows.length → dot (row (sm.rows.map (·.coeffs)) i) x = nth (sm.rows.map (·.rhs)) i)
+    (hnn : ∀ v ∈ x, 0 ≤ v) :
+    -(solve tol stallExtra limit prefer (phase1Tab sm)).final.value ≤ tol * x.sum :=
+  Phase1.phase1_value_bound htol sm hrows stallExtra limit prefer hok x hxl hx hnn
+
+/-- **phase1_nonzero_infeasible_partial.**  When `into_tableau_two_phase` answers `Infesible` (phase 1 stopped at a
+value with `|v| ≥ tol`) and that value is `≤ 0` (as it is whenever the final phase-1 basic solution is
+non-negative), the standard form has no feasible point with `Σx < 1`.  PARTIAL by nature: with an ABSOLUTE
+tolerance on the phase-1 optimum nothing stronger is true (a feasible point far from the origin can leave a
+residual `≥ tol`; known finding `C14-absolute-tolerance-on-unscaled-data`). -/
+theorem phase1_nonzero_infeasible_partial (tol : K) (htol : 0 < tol) (sm : StdModel K)
+    (hrows : ∀ r ∈ sm.rows, r.coeffs.length = sm.vars.length) (stallExtra limit : Nat)
+    (h : twoPhase tol stallExtra limit sm = .error .infeasible)
+    (hv : (solve tol stallExtra limit ((List.range sm.rows.length).map (· + sm.vars.length)) (phase1Tab sm)).final.value ≤ 0)
+    (x : List K) (hxl : x.length = sm.vars.length)
+    (hx : ∀ i, i < sm.rows.length → dot (row (sm.rows.map (·.coeffs)) i) x = nth (sm.rows.map (·.rhs)) i)
+    (hnn : ∀ v ∈ x, 0 ≤ v) : 1 ≤ x.sum :=
+  Phase1.infeasible_report tol htol sm hrows stallExtra limit h hv x hxl hx hnn
+
+/-- **bland_no_cycle_partial.**  Bland's rule as implemented by `find_h(use_bland)` / `find_t` does not cycle:
+along any run of Bland steps of `step_inner` (no preference list) the basis never returns to a basis set it
+had before.  PARTIAL: the visited tableaus must be feasible and SEPARATED by the tolerance (`Bland.Sep`:
+reduced costs and entries are `0` or `≥ tol` in magnitude, ratios of a column equal or `≥ tol` apart — a
+decidable predicate per tableau), and `tol > 0`; only then are ties in the ratio test detected exactly and
+broken by the smallest basic index.  (For `tol = 0` the predicate `float_eq` never holds, ties go to the first
+row, and that is not Bland's rule.) -/
+theorem bland_no_cycle_partial {tol : K} (ht : 0 < tol) {m n N : Nat} {c0 : List K} {T : Nat → Tab K}
+    {h t : Nat → Nat} {ρ : Nat → K} (R : Bland.BlandRun tol m n N c0 T h t ρ) {a b : Nat} (hab : a < b)
+    (hb : b ≤ N) : ¬ (∀ j, j ∈ (T b).basis ↔ j ∈ (T a).basis) :=
+  Bland.no_repeat ht R hab hb
+
+/-- **bland_run_length_partial.**  Consequently a run of Bland steps over `n` columns has fewer than `2^n` steps:
+once the stall counter has switched the loop to Bland's rule, it stops stalling (reaches `Finished`,
+`Unbounded` or a strict improvement) within `2^n` pivots.  Same hypotheses as `bland_no_cycle_partial`; the
+bookkeeping of the mixed Dantzig/Bland loop against its numeric `limit` is not done. -/
+theorem bland_run_length_partial {tol : K} (ht : 0 < tol) {m n N : Nat} {c0 : List K} {T : Nat → Tab K}
+    {h t : Nat → Nat} {ρ : Nat → K} (R : Bland.BlandRun tol m n N c0 T h t ρ) : N < 2 ^ n :=
+  Bland.run_length_lt ht R
+
 /-- **terminates_within_limit_partial.**  The loop performs at most `limit` pivots (it is fuel-bounded by
 construction).  That Bland's rule reaches `Finished`/`Unbounded` BEFORE the limit (no cycling) is the
 classical termination theorem and is NOT proved here (planned: `bland_terminates`). -/
@@ -222,6 +280,49 @@ example : Start.NoSubTol (1/100000 : ℚ) (sm0.rows.map (·.coeffs)) ∧
     right; rw [h1]; norm_num
   · rw [e]; simp [sm0]
   · rw [e]; simp [selectPerRow, sm0, List.range, List.range.loop]
+
+theorem T0_sep : Bland.Sep (1/100000 : ℚ) T0 := by
+  refine ⟨?_, ?_, ?_⟩
+  · intro j
+    rcases j with _ | _ | j <;> simp [T0, nth] <;> norm_num
+  · intro i j
+    rcases i with _ | i <;> rcases j with _ | _ | j <;> simp [T0, nth, row] <;> norm_num
+  · intro i i' j
+    rcases i with _ | i <;> rcases i' with _ | i' <;> rcases j with _ | _ | j <;> simp [T0, nth, row] <;> norm_num
+
+theorem T0'_sep : Bland.Sep (1/100000 : ℚ) T0' := by
+  refine ⟨?_, ?_, ?_⟩
+  · intro j
+    rcases j with _ | _ | j <;> simp [T0', nth] <;> norm_num
+  · intro i j
+    rcases i with _ | i <;> rcases j with _ | _ | j <;> simp [T0', nth, row] <;> norm_num
+  · intro i i' j
+    rcases i with _ | i <;> rcases i' with _ | i' <;> rcases j with _ | _ | j <;> simp [T0', nth, row] <;> norm_num
+
+/-- a Bland run exists (one step, tolerance `1e-5`): the hypotheses of `bland_no_cycle_partial` are satisfiable. -/
+example : Bland.BlandRun (1/100000 : ℚ) 1 2 1 [-1, 0] (fun p => if p = 0 then T0 else T0') (fun _ => 0) (fun _ => 0)
+    (fun _ => 2) := by
+  have h1 : |(1:ℚ)| = 1 := abs_one
+  have h2 : (100000:ℚ)⁻¹ ≤ 1 := by norm_num
+  have hfeas : ∀ (T : Tab ℚ), T.a.length = 1 → nth T.b 0 = 2 → Feasible T := by
+    intro T hl hb i hi
+    have : i = 0 := by omega
+    subst this; simp [hb]
+  refine ⟨Unbounded.canon_of_one_row T0 [1, 1] 2 1 rfl rfl rfl rfl (by decide) (by simp [nth]) (by simp [T0, nth]),
+    by intro x _ _; simp [T0], ?_, ?_, ?_⟩
+  · intro p hp
+    have : p = 0 := by omega
+    subst this
+    simp [stepInner, isOptimal, findH, findT, eligible, ratios, pivot, rowSubMul, rowDiv, T0, T0', Tol.fge,
+      Tol.feq, Tol.flt, Tol.fgt, nth, row, List.zipIdx, h1, h2]
+  · intro p hp
+    rcases p with _ | p
+    · simpa using T0_sep
+    · simpa using T0'_sep
+  · intro p hp
+    rcases p with _ | p
+    · exact hfeas _ rfl (by simp [T0, nth])
+    · exact hfeas _ (by simp [T0']) (by simp [T0', nth])
 
 end examples
 
